@@ -87,7 +87,7 @@ func TestC16Variants(t *testing.T) {
 
 func TestC16HookRandom(t *testing.T) {
 	ev.Run(t, "C16", func(t *rapid.T) c16Case {
-		c := genC16(t)
+		c := genC16Over(t, allPathTokens(true))
 		c.Via = "hook"
 		if c.Text == "" {
 			c.Text = "ex.a"
